@@ -25,7 +25,7 @@ EXHAUSTIVE = {"quick": False, "thorough": False}
 
 def plan(tier, seed):
     if tier == "quick":
-        return [{"trees": 3000}]
+        return [{"trees": 2000}]
     return [{"trees": 6000, "salt": i} for i in range(16)]
 
 
